@@ -101,6 +101,20 @@ def dt_case(draw):
         dd = draw(st.sampled_from([1, -1, 7, 28, 30, 31, 365, -30]))
         w = S.clamp_u(target - dd * 86400 * US)
         a = {"days": dd}
+    elif z and draw(st.integers(0, 4)) == 0 and T.transitions(z):
+        # the wall time reached after the years/months part alone is skipped or repeated (or next to such a stretch), and weeks/days/time units
+        # follow: the shift is one calendar computation from the start, nothing in between is a value of its own to be normalised
+        target = draw(S.wall_near_transition(z))
+        tw = T.wall_from_us(target)
+        if tw.day <= 28 and 30 < tw.year < 9960:
+            ym = {"months": draw(st.integers(-25, 25).filter(lambda k: k != 0)), "years": draw(st.sampled_from([0, 0, 1, -1, 3]))}
+            # day <= 28: no clamping, so start + ym is the target wall time exactly ... or start - ym is (the path subtract() takes)
+            w = T.naive_us(model(tw, neg(ym) if draw(st.booleans()) else ym))
+            a = dict(ym)
+            a.update(draw(st.fixed_dictionaries({}, optional={"weeks": st.integers(-3, 3), "days": st.integers(-40, 40), "hours": st.integers(-30, 30),
+                                                               "minutes": st.integers(-90, 90), "microseconds": st.sampled_from([0, 1, -1, 5])})))
+            if not (a.get("weeks") or a.get("days")):
+                a["days"] = draw(st.sampled_from([1, -1, 3, -5, 7]))
     return {"zone": z, "w": w, "amt": a, "prov": draw(st.sampled_from(["construct", "convert", "convert-add"]))}
 
 
